@@ -62,7 +62,7 @@ def shards(tier):
                                 "slice": [i, k]})
     out.append({"buf": 8192, "kind": "vhdx-locate"})
     for buf in bufs[:2] if q else bufs:
-        for mech in ("vmdk-hosted", "vmdk-sesparse", "vmdk-multi", "hdd", "hdd-top", "hdd-topdefault", "hdd-plainbase", "hdd-split",
+        for mech in ("vmdk-hosted", "vmdk-stream", "vmdk-sesparse", "vmdk-multi", "hdd", "hdd-top", "hdd-topdefault", "hdd-plainbase", "hdd-split",
                      "qcow2", "qcow2-ext", "vdi", "vdi-mixed", "vdi-mixed-up"):
             for depth in (1, 2, 3):
                 if mech.startswith("vdi-mixed") and depth == 1:
@@ -73,6 +73,9 @@ def shards(tier):
                 k = {1: 1, 2: 4, 3: 8}[depth] * (4 if W == 3 and depth == 3 else 1)
                 for i in range(k):
                     out.append({"buf": buf, "kind": "chain", "mech": mech, "depth": depth, "W": W, "slice": [i, k]})
+    # a delta whose first grain table is absent altogether (directory entry 0), over a full base: requests that start inside the
+    # absent table's range and run into the next table
+    out.append({"buf": 8192, "kind": "vmdk-absent-table"})
     # chains of 34 .. 70 layers (every layer rewrites one unit): data that lives dozens of levels below the top
     for mech in ("vdi", "qcow2", "hds"):
         out.append({"buf": 8192, "kind": "deep-chain", "mech": mech})
@@ -92,6 +95,9 @@ def run_shard(shard, ctx):
         _shard_vhdx_locate(shard, ctx)
     elif kind == "chain":
         _shard_chain(shard, ctx)
+    elif kind == "vmdk-absent-table":
+        for variant in ("first-absent", "middle-absent", "two-absent"):
+            run_case({"kind": "vmdk-absent-table", "variant": variant}, ctx)
     elif kind == "deep-chain":
         for depth in (34, 70):
             run_case({"kind": "deep-chain", "mech": shard["mech"], "depth": depth}, ctx)
@@ -125,6 +131,8 @@ def run_case(case, ctx):
             _case_chain(case, ctx, d, {})
         elif kind == "deep-chain":
             _case_deep_chain(case, ctx)
+        elif kind == "vmdk-absent-table":
+            _case_vmdk_absent_table(case, ctx, d)
         elif kind == "qcow2-snap":
             _case_qsnap(case, ctx)
         elif kind == "qcow2-snap-seq":
@@ -424,11 +432,11 @@ def _case_vhdx_locate(case, ctx, d):
 
 
 # ---- generic depth-1..3 chains for VMDK / Parallels / QCOW2 / VDI -------------------------------------------------------
-ALPHA = {"vmdk-hosted": [HOLE, ZERO, DATA], "vmdk-sesparse": [HOLE, ZERO, "F", DATA], "vmdk-multi": [HOLE, ZERO, DATA],
+ALPHA = {"vmdk-stream": [HOLE, ZERO, DATA], "vmdk-hosted": [HOLE, ZERO, DATA], "vmdk-sesparse": [HOLE, ZERO, "F", DATA], "vmdk-multi": [HOLE, ZERO, DATA],
          "hdd-split": [HOLE, DATA], "hdd": [HOLE, DATA], "hdd-top": [HOLE, DATA], "hdd-topdefault": [HOLE, DATA], "hdd-plainbase": [HOLE, DATA],
          "qcow2": ["U", "Z", "N", "C"], "qcow2-ext": ["u", "a", "z"], "vdi": [HOLE, ZERO, DATA],
          "vdi-mixed": [HOLE, ZERO, DATA], "vdi-mixed-up": [HOLE, ZERO, DATA]}
-UNIT = {"hdd-split": 4096, "vmdk-hosted": 4096, "vmdk-sesparse": 4096, "vmdk-multi": 4096, "hdd": 4096, "hdd-top": 4096,
+UNIT = {"vmdk-stream": 4096, "hdd-split": 4096, "vmdk-hosted": 4096, "vmdk-sesparse": 4096, "vmdk-multi": 4096, "hdd": 4096, "hdd-top": 4096,
         "hdd-topdefault": 4096, "hdd-plainbase": 4096, "qcow2": 4096, "qcow2-ext": 512,
         "vdi": 4096, "vdi-mixed": 4096, "vdi-mixed-up": 4096}
 
@@ -589,7 +597,8 @@ def _open_chain(mech, layers, d, cache, unit):
                     extents.append(("RW", n * grain, "SESPARSE", fn, None))
                 else:
                     # content of extent xi starts at guest grain g0: give the builder the absolute guest position
-                    img = _hosted_extent(B, part, slots, grain, k + 1, g0)
+                    # (vmdk-stream: every layer is a compressed, stream-optimized extent -- deltas of that kind have parents too)
+                    img = _hosted_extent(B, part, slots, grain, k + 1, g0, compressed=mech == "vmdk-stream")
                     extents.append(("RW", n * grain, "SPARSE", fn, None))
                 if kind == "sesparse" and g0:
                     raise AssertionError
@@ -761,8 +770,11 @@ def _open_chain(mech, layers, d, cache, unit):
     raise ValueError(mech)
 
 
-def _hosted_extent(B, part, slots, grain, layer, g0):
+def _hosted_extent(B, part, slots, grain, layer, g0, compressed=False):
     """A hosted sparse extent whose grain j holds the pattern of *guest* grain g0 + j (extents are concatenated)."""
+    if compressed:
+        assert g0 == 0
+        return B.build_hosted(part, slots, grain, 512, len(part) * grain, layer=layer, compressed=True, footer=True, stride=grain + 2)
     img = B.build_hosted(part, slots, grain, 512, len(part) * grain, layer=layer)
     if g0:
         # re-tag payload extents: the builder used guest offsets relative to the extent
@@ -773,6 +785,66 @@ def _hosted_extent(B, part, slots, grain, layer, g0):
             ext.append((off, kind, pl, ln))
         img.ext = ext
     return img
+
+
+def _case_vmdk_absent_table(case, ctx, d):
+    from dissect.hypervisor.disk.vmdk import VMDK
+
+    from mc.builders import vmdk as B
+
+    grain, ngte = 8, 512
+    tables = 4
+    n = tables * ngte + 5
+    absent = {"first-absent": {0}, "middle-absent": {1}, "two-absent": {0, 2}}[case["variant"]]
+    base_st = [DATA] * n
+    top_st = [HOLE] * n
+    for t in range(tables + 1):
+        if t not in absent:
+            for j in (0, 1, 5, ngte - 1):
+                g = t * ngte + j
+                if g < n:
+                    top_st[g] = DATA
+    def slots_of(st, k):
+        idx = [i for i, x in enumerate(st) if x == DATA]
+        order = idx if k == 0 else idx[::-1]
+        sl = [None] * len(st)
+        for p, i in enumerate(order):
+            sl[i] = p
+        return sl
+    for k, st in enumerate((base_st, top_st)):
+        sub = os.path.join(d, f"l{k}")
+        os.makedirs(sub, exist_ok=True)
+        B.build_hosted(st, slots_of(st, k), grain, ngte, n * grain, layer=k + 1).write_to(os.path.join(sub, f"l{k}-s001.vmdk"))
+        with open(os.path.join(sub, f"l{k}.vmdk"), "w") as f:
+            f.write(B.descriptor_text("monolithicSparse", [("RW", n * grain, "SPARSE", f"l{k}-s001.vmdk", None)], cid=f"{k + 1:08x}",
+                                      parent_cid="00000001" if k else "ffffffff", parent_hint="../l0/l0.vmdk" if k else None))
+    disk = GuestDisk(n * grain * 512, grain * 512, top_st, 2, GuestDisk(n * grain * 512, grain * 512, base_st, 1))
+    ctx.model(case)
+    ctx.executions += 1
+    ctx.sample(case)
+    ctx.nontrivial += 1
+    cov = ngte * grain  # sectors per grain table
+    sreqs = []
+    for t in sorted(absent):
+        s0 = t * cov
+        sreqs += [(s0 + 8, cov - 8 + 1), (s0 + 8, cov - 8 + 9), (s0 + 8 * 7 + 3, cov), (s0 + cov - 9, 18), (s0, cov + 8), (s0 + 8, 2 * cov),
+                  (max(0, s0 - 8), cov + 24)]
+    reqs = [(a * 512, c * 512) for a, c in sreqs] + [(0, n * grain * 512)]
+    with ctx.watch(case, 300):
+        v = VMDK(Path(d) / "l1" / "l1.vmdk")
+        try:
+            _count_sources(ctx, disk, reqs)
+            compare_sector_reads(ctx, case, v.read_sectors, disk, sreqs, "vmdk.absent-table.read_sectors", 512)
+            compare_reads(ctx, case, v, disk, reqs, "vmdk.absent-table.read")
+        finally:
+            x = v
+            while x is not None:
+                for dsk in x.disks:
+                    try:
+                        dsk.fh.close()
+                    except Exception:
+                        pass
+                x = x.parent
 
 
 def _case_deep_chain(case, ctx):
@@ -989,8 +1061,8 @@ def _case_qsnap_seq(case, ctx):
 def _shard_locate(shard, ctx):
     for cfg in ("vmdk-same-dir", "vmdk-relative", "vmdk-backslash-abs", "vmdk-sibling-dir", "vmdk-missing",
                 "vmdk-embedded-missing", "vmdk-embedded-found", "vmdk-embedded-nameless-handle", "vmdk-embedded-nameless-list",
-                "vmdk-text-descriptor-nameless-handle", "qcow2-none-given", "qcow2-optout", "qcow2-given",
-                "hdd-missing-image", "hdd-moved-absolute"):
+                "vmdk-text-descriptor-nameless-handle", "vmdk-embedded-stale-hint", "vmdk-embedded-missing-no-extent-lines",
+                "qcow2-none-given", "qcow2-optout", "qcow2-given", "hdd-missing-image", "hdd-moved-absolute"):
         run_case({"kind": "locate", "cfg": cfg}, ctx)
 
 
@@ -1007,11 +1079,38 @@ def _case_locate(case, ctx, d):
     alone = GuestDisk(3 * unit, unit, top_states, 2)
     reqs = [(0, 3 * unit), (0, 512), (unit - 1, 2), (2 * unit, 100)]
     expect_fail = cfg in ("vmdk-missing", "vmdk-embedded-missing", "qcow2-none-given", "hdd-missing-image",
-                          "vmdk-embedded-nameless-handle", "vmdk-embedded-nameless-list", "vmdk-text-descriptor-nameless-handle")
-    optout = cfg == "qcow2-optout"
+                          "vmdk-embedded-nameless-handle", "vmdk-embedded-nameless-list", "vmdk-text-descriptor-nameless-handle",
+                          "vmdk-embedded-missing-no-extent-lines")
+    optout = cfg in ("qcow2-optout", "vmdk-embedded-stale-hint")
+    # the working directory holds look-alikes of every file name the scenarios use: parents, extents and images are looked for
+    # relative to the file that names them, never relative to the working directory
+    decoy = os.path.join(d, "cwd-with-lookalikes")
+    os.makedirs(decoy, exist_ok=True)
+    g0_ = "{00000001-0000-4000-8000-000000000000}"
+    from mc.builders import hdd as _BH
+
+    from mc.builders import vmdk as _BV
+
+    # (well-formed look-alikes holding other data: a reader that picks them up serves them instead of failing on them)
+    _BV.build_hosted([DATA] * 3, [0, 1, 2], grain, layer=9).write_to(os.path.join(decoy, "base-s001.vmdk"))
+    _BV.build_hosted([DATA] * 3, [2, 1, 0], grain, layer=9).write_to(os.path.join(decoy, "top-s001.vmdk"))
+    for nm in ("base.vmdk", "top.vmdk"):
+        with open(os.path.join(decoy, nm), "w") as f:
+            f.write(_BV.descriptor_text("monolithicSparse", [("RW", 3 * grain, "SPARSE", nm.replace(".vmdk", "-s001.vmdk"), None)],
+                                        cid="00000001"))
+    for nm in ("disk.hdd.0." + g0_ + ".hds", "disk.hdd.0." + _BH.DEFAULT_TOP + ".hds"):
+        _BH.build_hds([DATA] * 3, [1, 2, 3], grain, 2, 3 * grain, layer=9).write_to(os.path.join(decoy, nm))
+    for nm in ("base.qcow2", "DiskDescriptor.xml"):
+        with open(os.path.join(decoy, nm), "wb") as f:
+            f.write(b"\x55" * 4096)
+    cwd = os.getcwd()
     with ctx.watch(case):
         try:
-            stream = _open_locate(cfg, d, grain, base_states, top_states)
+            os.chdir(decoy)
+            try:
+                stream = _open_locate(cfg, d, grain, base_states, top_states)
+            finally:
+                os.chdir(cwd)
         except Exception as e:
             if expect_fail:
                 ctx.outcome("refused")
@@ -1048,7 +1147,8 @@ def _open_locate(cfg, d, grain, base_states, top_states):
         os.makedirs(vm)
         os.makedirs(old)
         where = {"vmdk-same-dir": vm, "vmdk-relative": old, "vmdk-backslash-abs": vm, "vmdk-sibling-dir": old,
-                 "vmdk-missing": None, "vmdk-embedded-missing": None, "vmdk-embedded-found": vm}.get(cfg, vm)
+                 "vmdk-missing": None, "vmdk-embedded-missing": None, "vmdk-embedded-found": vm,
+                 "vmdk-embedded-missing-no-extent-lines": None}.get(cfg, vm)
         hint = {"vmdk-same-dir": "base.vmdk", "vmdk-relative": "../old/base.vmdk",
                 "vmdk-backslash-abs": "C:\\Users\\x\\vm\\base.vmdk", "vmdk-sibling-dir": "/somewhere/else/old/base.vmdk",
                 "vmdk-missing": "base.vmdk", "vmdk-embedded-missing": "base.vmdk", "vmdk-embedded-found": "base.vmdk"}.get(cfg, "base.vmdk")
@@ -1061,6 +1161,13 @@ def _open_locate(cfg, d, grain, base_states, top_states):
         if cfg.startswith("vmdk-embedded"):
             txt = BV.descriptor_text("monolithicSparse", [("RW", W * grain, "SPARSE", "top.vmdk", None)], cid="00000002",
                                      parent_cid="00000001", parent_hint=hint)
+            if cfg == "vmdk-embedded-stale-hint":
+                # parentCID says "no parent"; a parentFileNameHint left over from earlier names an existing disk: no parent
+                txt = BV.descriptor_text("monolithicSparse", [("RW", W * grain, "SPARSE", "top.vmdk", None)], cid="00000002",
+                                         parent_cid="ffffffff", parent_hint=hint)
+            if cfg == "vmdk-embedded-missing-no-extent-lines":
+                # the descriptor names a parent and has no (recognisable) extent line; the parent is missing
+                txt = "\n".join(ln for ln in txt.split("\n") if not ln.startswith("RW ")) + "\nRW\t%d\tSPARSE\t\"top.vmdk\"\n" % (W * grain)
             timg = BV.build_hosted(top_states, _slots_for(top_states, 1, (DATA,)), grain, layer=2, descriptor=txt)
             if cfg == "vmdk-embedded-nameless-handle":
                 # a delta handed over as an object without a name: there is nowhere to look for the parent it names -- it
